@@ -77,6 +77,10 @@ def interpolate(input, coord, kernel="spline", width=2, param=1):
         # width and param take the coordinates' dtype below: integer
         # coordinates must not truncate them.
         coord = coord.astype(np.float64)
+    if not np.issubdtype(input.dtype, np.inexact):
+        # The kernel weights are not integers: integer samples must not
+        # truncate the weighted sums.
+        input = input.astype(np.float64)
     output = xp.zeros([batch_size, npts], dtype=input.dtype)
 
     if np.isscalar(param):
@@ -165,6 +169,10 @@ def gridding(input, coord, shape, kernel="spline", width=2, param=1):
         # width and param take the coordinates' dtype below: integer
         # coordinates must not truncate them.
         coord = coord.astype(np.float64)
+    if not np.issubdtype(input.dtype, np.inexact):
+        # The kernel weights are not integers: integer samples must not
+        # truncate the weighted contributions.
+        input = input.astype(np.float64)
     output = xp.zeros([batch_size] + list(shape[-ndim:]), dtype=input.dtype)
 
     if np.isscalar(param):
